@@ -20,7 +20,6 @@ Params == JsonDeserialize(IOEnv.VERIF_PARAMS)
 A  == Params.alpha
 a  == A[1]
 b  == A[2]
-O  == SeqToSet(Params.o)
 
 Inputs_def == StrUpTo(A, Params.maxlen)
 
@@ -133,21 +132,44 @@ ChunkPids(c) ==
 
 Compact(f) == IF f.ok THEN <<f.idx, f.len, f.caps>> ELSE <<>>
 
-Emit(pid) ==
-  LET t == TreeAt(pid) IN
+\* C18: the same pattern spelled with inline options.  Params.spelling:
+\*   "plain"    t compiled with options Params.o
+\*   "optset"   (?so)t      compiled with Params.o (normally none)
+\*   "optgroup" (?so:t)     compiled with Params.o (normally none)
+\*   "nested"   (?-so:t)(?so:t) compiled with Params.o: the options are switched off for the first copy only
+\* Params.variants: sequence of [spelling, so, o]; one TLC run covers them all
+Variants == Params.variants
+Spell(t, v) ==
+  CASE v.spelling = "optset"   -> Cat2(OptSet(v.so, <<>>), t)
+    [] v.spelling = "optgroup" -> OptG(v.so, <<>>, t)
+    [] v.spelling = "nested"   -> Cat2(OptG(<<>>, v.so, t), OptG(v.so, <<>>, t))
+    [] OTHER -> t
+
+Emit(pid, vi) ==
+  LET v == Variants[vi]
+      O == SeqToSet(v.o)
+      SO == v.so
+      t == Spell(TreeAt(pid), v) IN
   IF ~InFragment(t, "n" \in O) THEN PrintT(<<"SKIP", ToJson([pid |-> pid])>>)
   ELSE
   LET p == Table(t) IN
-  IF ~WF(p, O, Params.dia) THEN PrintT(<<"WFERR", ToJson([pid |-> pid])>>)
+  IF PreOrder(p) /\ OptsetPlacement(p) /\ ~RefsResolve(p, O, Params.dia)
+  THEN PrintT(<<"SKIP", ToJson([pid |-> pid])>>)      \* a reference to a group the options make non-capturing: not a pattern
+  ELSE IF ~WF(p, O, Params.dia) THEN PrintT(<<"WFERR", ToJson([pid |-> pid])>>)
   ELSE
   LET e   == Elab(p, O, Params.dia)
       res == [k \in 1..Len(Inputs) |->
                 [st \in 1..(Len(Inputs[k]) + 1) |-> Compact(Find(e, Inputs[k], st - 1, -1, Params.rtl))]]
-  IN PrintT(<<"P", ToJson([pid |-> pid, fam |-> FamNames[FamIdx(pid)], p |-> p, res |-> res])>>)
+      \* M: on the specification itself the inline spelling means exactly the compile-time options
+      plainE == Elab(Table(TreeAt(pid)), O \cup SeqToSet(SO), Params.dia)
+      same == v.spelling \notin {"optset", "optgroup"} \/
+              \A k \in 1..Len(Inputs) : \A st \in 1..(Len(Inputs[k]) + 1) :
+                  Compact(Find(plainE, Inputs[k], st - 1, -1, Params.rtl)) = res[k][st]
+  IN (same \/ PrintT(<<"SPECDIFF", ToJson([pid |-> pid])>>)) /\ PrintT(<<"P", ToJson([pid |-> pid, vi |-> vi, o |-> v.o, fam |-> FamNames[FamIdx(pid)], p |-> p, res |-> res])>>)
 
 VARIABLES c, j
-Init == /\ c \in 1..NChunks /\ j = 0
+Init == /\ c \in 1..NChunks /\ j = <<>>
         /\ (c = 1 => PrintT(<<"INPUTS", ToJson([n |-> NFam, sizes |-> FamSizes, names |-> FamNames, inputs |-> Inputs])>>))
-Next == j = 0 /\ \E pid \in ChunkPids(c) : j' = pid /\ c' = c /\ Emit(pid)
+Next == j = <<>> /\ \E pid \in ChunkPids(c) : \E vi \in 1..Len(Variants) : j' = <<pid, vi>> /\ c' = c /\ Emit(pid, vi)
 Spec == Init /\ [][Next]_<<c, j>>
 =============================================================================
